@@ -28,15 +28,14 @@
               in order) does not depend on the other files.
    [PIdSet k] a loop whose order comes from a set of objects hashed by id(): its requests come in
               an arbitrary order (sigma).  In the repaired code such a loop only ever asks for
-              entities whose identifier an earlier by-file loop has already requested: the model
-              draws its requests from those (a selection of entity ids), so this holds by
-              construction and is checked against every traced run.
+              entities whose identifier an earlier loop (by-file or fixed) has already requested:
+              the model draws its requests from those (a selection of entity ids), so this holds
+              by construction; every traced run is checked for it, and a first request inside
+              such a loop is reported as a violation.
    [PFixed k] a loop whose order is computed from data that is already fixed (the rank order:
-              toposort levels sorted by the — by now assigned — identifiers; list pages sorted by
-              name): a sequence of requests that is part of the project — up to the order among
-              requests for DIFFERENT (directory, name) keys: inside one container the derived
-              types are compared while a set of them is sorted, and the types of one scope have
-              different names ([key_equiv]).
+              toposort levels sorted by the — by now assigned — identifiers; the loop of
+              graph_all that collects bound and internal procedures; list pages sorted by name):
+              a sequence of requests that is part of the project.
 
    The pipelines before the repairs ([BySet]: a set-ordered loop that may ask for anything) are
    kept at the end only to state what the repairs repaired.
@@ -89,14 +88,19 @@ Definition pipeline : list phase :=
   [ PFile 0                        (* Project.__init__: for filename in sorted(find_all_files(...)) *)
   ; PFile 45; PFile 46             (* correlate: for module in chain(self.modules, self.submodules): module.ident *)
   ; PIdSet 0                       (* correlate: toposort_flatten(deplist): sorted(set of modules) *)
-  ; PFixed 1                       (* ranklist loop, module/submodule part: container.correlate *)
+  ; PFixed 1                       (* ranklist loop, module/submodule part: container.correlate; it asks for the
+                                      identifiers of the scope's types (and their parents) in list order *)
   ; PFile 1; PFile 2; PFile 3      (* ranklist loop: top-level procedures, programs, block data *)
+  ; PIdSet 2                       (* the toposort_flatten(typelist) of every container.correlate above:
+                                      sorted(set of types); interleaved with those loops in the code *)
   ; PFixed 2                       (* prune loop, module/submodule part *)
   ; PFile 4; PFile 5; PFile 6      (* prune loop: top-level procedures, programs, block data *)
   ; PFixed 3                       (* rest of correlate and of main before markdown *)
   ; PFile 7; PFile 8 ]             (* Project.markdown: project.files, project.extra_files *)
   ++ map PFile (seq 9 n_page_lists)     (* Documentation.__init__: page objects (outfile -> ident) *)
-  ++ [ PIdSet 1                    (* graphs: register, graph_all (nodes are created while sets are walked) *)
+  ++ [ PFixed 4                    (* graph_all: bound / internal procedures collected over sorted(graph_objs) *)
+     ; PIdSet 1                    (* graphs: register, sorted(set of procedures), nodes created while sets are
+                                      walked; interleaved with the loop above in the code *)
      ; PFixed 5 ]                  (* search index: the index page *)
   ++ map PFile (seq 21 n_page_lists)    (* search index: page.html of every entity page *)
   ++ [ PFixed 6 ]                  (* search index: static pages; writeout: graph files *)
@@ -116,21 +120,23 @@ Definition final_state (enum : list pfile) (fixed idt : list (list req)) : nstat
 Definition ident_in (st : nstate) (id : nat) : option str :=
   option_map ident_of (find_item id (items st)).
 
-(* what the by-file phases before the (first) PIdSet k phase have requested *)
-Fixpoint seen_before (pl : list phase) (enum : list pfile) (k : nat) (acc : list req) : list req :=
+(* what the by-file and fixed phases before the (first) PIdSet k phase have requested *)
+Fixpoint seen_before (pl : list phase) (enum : list pfile) (fixed : list (list req)) (k : nat)
+                     (acc : list req) : list req :=
   match pl with
   | [] => acc
-  | PFile j :: pl' => seen_before pl' enum k (acc ++ flat_map (seg j) enum)
-  | PIdSet j :: pl' => if Nat.eqb j k then acc else seen_before pl' enum k acc
-  | PFixed _ :: pl' => seen_before pl' enum k acc
+  | PFile j :: pl' => seen_before pl' enum fixed k (acc ++ flat_map (seg j) enum)
+  | PIdSet j :: pl' => if Nat.eqb j k then acc else seen_before pl' enum fixed k acc
+  | PFixed j :: pl' => seen_before pl' enum fixed k (acc ++ nth j fixed [])
   end.
 
 Definition memb (x : nat) (l : list nat) : bool := existsb (Nat.eqb x) l.
 
 (* the requests of the id-set phases, in some canonical order: the selected entities among what
    has been requested before *)
-Definition idsel_of (pl : list phase) (enum : list pfile) (sel : list (list nat)) : list (list req) :=
-  map (fun k => filter (fun r => memb (r_id r) (nth k sel [])) (seen_before pl enum k []))
+Definition idsel_of (pl : list phase) (enum : list pfile) (fixed : list (list req))
+                    (sel : list (list nat)) : list (list req) :=
+  map (fun k => filter (fun r => memb (r_id r) (nth k sel [])) (seen_before pl enum fixed k []))
       (seq 0 (length sel)).
 
 (* lists under the permutations [sigma] *)
@@ -158,20 +164,16 @@ Definition sorted_enum (P : project) (pi : list nat) : list pfile :=
   isort file_leb (enumerate (p_files P) pi).
 
 Definition idsel (P : project) (pi : list nat) : list (list req) :=
-  idsel_of pipeline (sorted_enum P pi) (p_idsel P).
+  idsel_of pipeline (sorted_enum P pi) (p_sets P) (p_idsel P).
 
 (* THE function of (files, pi, sigma): the identifier of every entity.  pi is the iteration order
    of the set find_all_files returns (Project.__init__ sorts it before parsing), sigma the
    iteration orders of the sets of objects hashed by id. *)
-Definition idents (P : project) (pi : list nat) (sigma : list (list nat)) (fixed : list (list req))
-  : list (nat * option str) :=
-  idents_enum P (sorted_enum P pi) fixed (enum_sets (idsel P pi) sigma).
+Definition idents (P : project) (pi : list nat) (sigma : list (list nat)) : list (nat * option str) :=
+  idents_enum P (sorted_enum P pi) (p_sets P) (enum_sets (idsel P pi) sigma).
 
-(* the fixed phases of a run: the project's sequences, up to the order among different keys *)
 Definition name_key (r : req) : str * str := (r_dir r, final_name (r_name r)).
 Definition has_key (K : str * str) (r : req) : bool := key_eqb (name_key r) K.
-Definition key_equiv (a b : list req) : Prop := forall K, filter (has_key K) a = filter (has_key K) b.
-Definition fixed_ok (P : project) (fixed : list (list req)) : Prop := Forall2 key_equiv fixed (p_sets P).
 
 Definition sigma_ok (P : project) (pi : list nat) (sigma : list (list nat)) : Prop :=
   perms_ok (idsel P pi) sigma.
@@ -193,11 +195,6 @@ Definition pair_ok (a b : req) : bool :=
   if Nat.eqb (r_id a) (r_id b) then req_eqb a b else negb (key_eqb (name_key a) (name_key b)).
 
 Definition no_clash_list (rs : list req) : bool := forallb (fun a => forallb (pair_ok a) rs) rs.
-
-(* well-formedness of a project: one request per entity (equal ids, equal requests) *)
-Definition consistentb (P : project) : bool :=
-  forallb (fun a => forallb (fun b => if Nat.eqb (r_id a) (r_id b) then req_eqb a b else true) (all_reqs P))
-          (all_reqs P).
 
 (* ------------------------------------------------------------------ other sets that reach the output *)
 
